@@ -39,7 +39,8 @@ def state_graph(vm):
 
 
 def run_update(args):
-    vm, fr, to, nets, seed = args
+    vm, fr, to, nets, seed = args[:5]
+    more = args[5] if len(args) > 5 else {}
     import logging
     import random
     logging.disable(logging.CRITICAL)
@@ -47,7 +48,7 @@ def run_update(args):
     os.makedirs(os.environ["HOME"], exist_ok=True)
     os.chdir(os.environ["HOME"])
     from avocado_i2n import intertest_setup
-    config = toolseam.base_config({vm: VMS[vm]}, nets, vms_params={f"from_state_{vm}": fr, f"to_state_{vm}": to})
+    config = toolseam.base_config({vm: VMS[vm]}, nets, vms_params=dict({f"from_state_{vm}": fr, f"to_state_{vm}": to}, **more))
     with toolseam.Recorder(random.Random(seed)) as rec:
         try:
             intertest_setup.update(config, tag="1r")
@@ -195,7 +196,38 @@ def multi_part(ctx, replay):
     ctx.coverage["multi_vm_updates"] = [{"vms": t[0], "nets": t[1], "workers_used": o["workers_used"]} for t, o in zip(todo, outs)]
 
 
+def remove_set_part(ctx, replay):
+    """'all remove_set values': the set of tests whose states an update removes may be given for all vms (remove_set) or for one
+    vm (remove_set_<vm>); for an update of that vm alone both spellings mean the same, and a smaller set removes no more"""
+    if replay and "remove_set" not in replay["data"]:
+        return
+    rng = ctx.rng
+    sets = [replay["data"]["remove_set"]] if replay else (["minimal", "normal"] if ctx.thorough else ["minimal"])
+    jobs = []
+    for rs in sets:
+        for extra in ({}, {"remove_set": rs}, {"remove_set_vm1": rs}):
+            jobs.append(("vm1", "install", "customize", "net1", 5, extra))
+    with concurrent.futures.ProcessPoolExecutor(max_workers=6) as ex:
+        outs = list(ex.map(run_update, jobs))
+    bad = []
+    for k, rs in enumerate(sets):
+        dflt, generic, pervm = outs[3 * k: 3 * k + 3]
+        if generic["err"] or pervm["err"] or sorted(set(generic["removed"])) != sorted(set(pervm["removed"])) or sorted(generic["ran"]) != sorted(pervm["ran"]):
+            bad.append({"remove_set": rs, "generic": generic, "per_vm": pervm, "default": dflt})
+    ctx.obligation("monitor:remove_set-spelling-independent", "monitor", not bad,
+                   f"{len(bad)} of {len(sets)} remove sets act differently when given for vm1 only (remove_set_vm1) than when given for all vms")
+    for b in bad[:1]:
+        ctx.fail("C15:per-vm-remove-set-differs", f"update of vm1 with remove_set_vm1={b['remove_set']} removed {sorted(set(b['per_vm']['removed']))}, "
+                 f"with remove_set={b['remove_set']} {sorted(set(b['generic']['removed']))} (default set: {sorted(set(b['default']['removed']))})", b, True)
+    ctx.count(len(jobs), len(sets))
+    ctx.coverage["remove_sets"] = [{"set": rs, "removed": sorted(set(outs[3 * k + 1]["removed"])), "default_removed": sorted(set(outs[3 * k]["removed"]))} for k, rs in enumerate(sets)]
+
+
 def run(ctx, replay=None):
+    os.environ["VERIF_WORK"] = ctx.work
+    remove_set_part(ctx, replay)
+    if replay and "remove_set" in replay["data"]:
+        return
     multi_part(ctx, replay)
     if replay and "multi" in replay["data"]:
         return
